@@ -42,6 +42,18 @@ _OFFSET_H_RE = re.compile(r"^(\d+(?:\.\d+)?)h$")
 _OFFSET_M_RE = re.compile(r"^(\d+(?:\.\d+)?)m$")
 
 
+def format_number(value) -> str:
+  '''Formats `value` with at most 6 significant digits, as `:g` does, but never in exponent
+  notation, which TTML numbers do not allow'''
+
+  s = f"{value:g}"
+
+  if "e" in s:
+    s = f"{value:.12f}".rstrip("0").rstrip(".")
+
+  return s
+
+
 def parse_length(attr_value: str) -> typing.Tuple[float, str]:
   '''Parses the TTML length in `attr_value` into a (length, units) tuple'''
 
